@@ -97,7 +97,16 @@ def one_run(prop, batch, seed=None, choices=None, keep_choices=False):
     from sim import boot
 
     nlog = len(boot.LOGS.records)
-    res = world.run(ch, cfg)
+    try:
+        res = world.run(ch, cfg)
+    except core.Hung as e:
+        # an endless loop in the code under test is a violation of whatever is being checked (nothing holds in a
+        # pipeline that has stopped); the process is poisoned (a controlled thread may still spin): no more runs here
+        sim = boot.setup()
+        v = dict(property=prop, rule='code_hangs', signature=e.where.rsplit(':', 1)[0], step=sim.steps, t=round(sim.now, 3),
+                 message=f'one step of the system ({e.kind} {e.label}) did not end within {core.STEP_HANG:.0f} s of real time: endless loop at {e.where}')
+        res = dict(violations=[v], probes={'code_hangs': 1}, faults={}, steps=sim.steps, vtime=round(sim.now, 3), digest=sim.digest(),
+                   nontrivial=True, kinds=dict(sim.kinds), sample=[v['message']], ops=[v['message']], unhandled=[], poisoned=True)
     res['nchoices'] = len(ch.rec)
     if os.environ.get('VERIF_SHOW_LOGS'):
         res['logs'] = [list(r) for r in boot.LOGS.records[nlog:]][:200]
@@ -114,13 +123,18 @@ def many_runs(prop, batch, seeds):
     at the start of a run, and the master re-runs any violating seed alone in a
     fresh child before believing it"""
     out = []
+    poisoned = False
     for pos, seed in enumerate(seeds):
+        if poisoned:
+            out.append({'retry': True, 'pos': pos})  # not run: the master sends these seeds to a fresh child
+            continue
         try:
             r = one_run(prop, batch, seed=seed)
         except BaseException:  # harness error, never a violation
             r = {'harness_error': traceback.format_exc()[-3000:]}
         r['pos'] = pos
         out.append(r)
+        poisoned = bool(r.get('poisoned'))
     return {'results': out}
 
 
